@@ -70,7 +70,10 @@ def subscribe(
     Raises:
         RuntimeError: on invalid operation.
     """
-    instrumentation = instrumentation or Instrumentation()
+    # `is None`: an instrumentation object may be falsy (e.g. a tracer that is
+    # an empty collection when the request starts).
+    if instrumentation is None:
+        instrumentation = Instrumentation()
 
     # The kind of the selected operation is checked before its root type is
     # looked up (a schema may not support that kind of operation at all).
